@@ -117,13 +117,14 @@ template <class T, class F> static void keeps_nonce(T &o, const char *cls, const
 {
     char kb[96]; snprintf(kb, sizeof kb, "cpp:%s:%s:nonce-kept", cls, path);
     unsigned char n2[16], exp[64], out[64];
-    for (int variant = 0; variant < 5; variant++) {
+    for (int variant = 0; variant < 6; variant++) {
         for (int i = 0; i < 16; i++) n2[i] = (unsigned char)(0xC1 + 7 * i + variant);
         /* variants 3 and 4: the increment after the first packet carries out of the low 8 bytes / wraps around 2^128 */
         if (variant == 3) { memset(n2, 0, 16); memset(n2 + 8, 0xff, 8); o.set_counter(0xffffffffffffffffULL); }
         else if (variant == 4) { memset(n2, 0xff, 16); o.set_nonce(n2, 16); }
         else if (variant == 1) { memset(n2, 0, 16); n2[8] = 0x80; n2[15] = 0xff; o.set_counter(0x80000000000000ffULL); }
         else if (variant == 2) { memset(n2, 0, 16); memcpy(n2 + 11, NONCE, 5); o.set_nonce(NONCE, 5); }
+        else if (variant == 5) { unsigned char lng[27]; memcpy(lng, n2, 16); for (int i = 16; i < 27; i++) lng[i] = (unsigned char)(0x35 + i); o.set_nonce(lng, 27); }   /* over-long: the first 16 bytes count */
         else o.set_nonce(n2, 16);
         if (!keying(o)) { hx_fail(kb, "keying returned false"); return; }
         c_encrypt(fam, alg, key, n2, ADB, 7, MSG, 21, exp); hx_stat("evaluations", 2);
